@@ -723,9 +723,14 @@ class _ServiceBrowserBase(RecordUpdateListener):
 
         This method is expected to be overridden by subclasses.
         """
-        for pending in self._pending_handlers.items():
+        # A handler may start another browser: async_add_listener then purges the expired
+        # records and notifies every listener, this one included, before it returns.
+        # Detach the pending changes first so that such a nested notification neither
+        # fires them again nor changes the dict while it is being iterated.
+        pending_handlers = self._pending_handlers
+        self._pending_handlers = {}
+        for pending in pending_handlers.items():
             self._fire_service_state_changed_event(pending)
-        self._pending_handlers.clear()
 
     def _fire_service_state_changed_event(self, event: Tuple[Tuple[str, str], ServiceStateChange]) -> None:
         """Fire a service state changed event.
